@@ -13,7 +13,9 @@ Decided clauses (see DESIGN.md section 6, C08):
  S4 R-CACHE  generators refresh the derived caches they read; no generator
              returns a memo; no snapshot of definition state taken at
              construction is kept across mutations.
- S5 R-CANARY trip sets every state True; __setattr__ lets a state only go False.
+ S5 R-CANARY the flag object's protocol, by interpretation of the operative class on all histories of <= 3 operations
+             over two objects (rules/canaryx.py): new/tripped -> all set, reset / `= False` clear one flag of one
+             object, `= True` sets nothing, objects independent.
 """
 import ast
 import itertools
@@ -24,6 +26,7 @@ from ..core.source import (AnalysisError, is_self_attr, dotted, norm, walk_no_ne
 from ..core.cfg import cfg_of
 from ..core.dataflow import dataflow_of
 from ..rules import model as M
+from ..rules import common as C
 from ..specs import c08 as SPEC
 
 TECHNIQUE = ("static analysis: call-graph closure of definition-state writers + CFG must-pass-through "
@@ -228,6 +231,16 @@ def _may_name(call, name, func):
     return False   # a parameter-named attribute: resolved at the callers of func, see _add_list_attr
 
 
+def _passed_as_value(all_funcs, name):
+    """is self.<name> used other than as the callee of a call?"""
+    for f in all_funcs:
+        called = {id(c.func) for c in ast.walk(f.node) if isinstance(c, ast.Call)}
+        for x in ast.walk(f.node):
+            if is_self_attr(x, name) and isinstance(x.ctx, ast.Load) and id(x) not in called:
+                return True
+    return False
+
+
 def definition_state(repo, cls, regs, res):
     """D = transitive compile-time read set of the generators and of the recompile
     routine, restricted to attributes that some method outside constructors and
@@ -245,8 +258,33 @@ def definition_state(repo, cls, regs, res):
     all_funcs = []
     for c in repo.mro(cls):
         all_funcs += list(c.methods.values()) + list(c.setters.values())
+    # private helpers that are only ever called from generators (or from such helpers) are part of the generators: what they
+    # write is the generator filling its own cache
+    by_name = {}
     for f in all_funcs:
-        if f.name == "__init__" or f.construct in gens:
+        by_name.setdefault(f.name, []).append(f)
+    callers = {}
+    for f in all_funcs:
+        for _n, _c, callee in C.calls(f):
+            if callee.startswith("self.") and callee.count(".") == 1 and callee[5:] in by_name:
+                callers.setdefault(callee[5:], set()).add(f.construct)
+        for x in ast.walk(f.node):            # a method handed around as a value (self._helper without a call) may be called from anywhere
+            if is_self_attr(x) and isinstance(x.ctx, ast.Load) and x.attr in by_name:
+                callers.setdefault(x.attr, set())
+    owned = set(gens)
+    grew = True
+    while grew:
+        grew = False
+        for name, fs in by_name.items():
+            for f in fs:
+                if f.construct in owned or not name.startswith("_") or name.startswith("__"):
+                    continue
+                cs = callers.get(name)
+                if cs and cs <= owned and not _passed_as_value(all_funcs, name):
+                    owned.add(f.construct)
+                    grew = True
+    for f in all_funcs:
+        if f.name == "__init__" or f.construct in owned:
             continue
         for a, n in write_sites(repo, cls, f, reads):
             writers.setdefault(a, []).append((f, n))
@@ -318,7 +356,9 @@ def check(repo, res, tier):
         res.violated("R-REG", f, "rebinding", "canary object is replaced outside the constructor", node=n)
 
     # --------------------------------------------------------------- S5 R-CANARY
-    _check_canary(repo, res, canary)
+    from ..rules import canaryx
+    nh = canaryx.check_canary(repo, res, canary, states)
+    res.floor("canary histories played", nh, 2000)
 
     # ---------------------------------------------------------------- S2 R-TRIP
     D, reads, writers, gens, compile_fn, all_funcs = definition_state(repo, cls, regs, res)
@@ -394,122 +434,6 @@ def _discharged(repo, cls, f, site, always, depth, seen):
         if not ok:
             return False, "via caller %s: %s" % (g.qualname, why)
     return True, "every call site of %s is followed by trip() (%d caller(s))" % (f.qualname, len(cs))
-
-
-# ------------------------------------------------------------------ R-CANARY
-def _const_true(e):
-    return isinstance(e, ast.Constant) and e.value is True
-
-
-def _check_canary(repo, res, canary):
-    base = None
-    for c in repo.mro(canary):
-        if "trip" in c.methods:
-            base = c
-            break
-    if base is None:
-        raise AnalysisError("canary class has no trip()")
-    trip = base.methods["trip"]
-    ok = False
-    why = "no assignment to self._states found"
-    for n in walk_no_nested(trip.node):
-        if isinstance(n, ast.Assign) and any(is_self_attr(t, "_states") for t in n.targets):
-            v = n.value
-            # dict([(s, True) for s in self.states]) | {s: True for s in self.states} | dict.fromkeys(self.states, True)
-            comp = None
-            if isinstance(v, ast.Call) and dotted(v.func) == "dict" and v.args and isinstance(v.args[0], (ast.ListComp, ast.GeneratorExp)):
-                comp = v.args[0]
-                elt = comp.elt
-                val = elt.elts[1] if isinstance(elt, ast.Tuple) and len(elt.elts) == 2 else None
-                key = elt.elts[0] if val is not None else None
-            elif isinstance(v, ast.DictComp):
-                comp, key, val = v, v.key, v.value
-            elif isinstance(v, ast.Call) and dotted(v.func) == "dict.fromkeys" and len(v.args) == 2:
-                ok = is_self_attr(v.args[0], "states") and _const_true(v.args[1])
-                why = "dict.fromkeys(self.states, True)" if ok else "fromkeys value is not True"
-                continue
-            if comp is not None:
-                g = comp.generators[0]
-                it_ok = is_self_attr(g.iter, "states") and not g.ifs and len(comp.generators) == 1
-                key_ok = isinstance(key, ast.Name) and isinstance(g.target, ast.Name) and key.id == g.target.id
-                ok = it_ok and key_ok and _const_true(val)
-                why = "all of self.states mapped to True" if ok else \
-                    "trip() does not map every element of self.states to True (iter ok=%s key ok=%s value=%s)" % (it_ok, key_ok, norm(val))
-    if not ok:
-        # loop form: for s in self.states: self._states[s] = True
-        for n in walk_no_nested(trip.node):
-            if isinstance(n, ast.For) and is_self_attr(n.iter, "states") and isinstance(n.target, ast.Name):
-                for st in n.body:
-                    if isinstance(st, ast.Assign) and len(st.targets) == 1 and isinstance(st.targets[0], ast.Subscript) \
-                            and is_self_attr(st.targets[0].value, "_states") and norm(st.targets[0].slice) == n.target.id \
-                            and _const_true(st.value):
-                        ok, why = True, "loop over self.states storing True"
-    res.check(ok, "R-CANARY", trip, "trip-sets-all", why, why)
-    # the flag dict is declared as a mutable *class* attribute: some method reached from __init__ must rebind it per
-    # instance before anything stores into it, otherwise all models share one set of flags
-    class_level = any(isinstance(v, (ast.Dict, ast.Call)) for c in repo.mro(canary) for k_, v in c.class_attrs.items() if k_ == "_states")
-    rebinds_in_trip = [n for n in walk_no_nested(trip.node) if isinstance(n, ast.Assign) and any(is_self_attr(t, "_states") for t in n.targets)]
-    init_c = None
-    for c in repo.mro(canary):
-        if "__init__" in c.methods:
-            init_c = c.methods["__init__"]
-            break
-    rebinds_in_init = [n for n in walk_no_nested(init_c.node) if isinstance(n, ast.Assign) and any(is_self_attr(t, "_states") for t in n.targets)] if init_c else []
-    init_calls_trip = bool(init_c) and any(isinstance(n, ast.Call) and is_self_attr(n.func, "trip") for n in walk_no_nested(init_c.node))
-    tcfg = cfg_of(trip)
-    trip_rebinds_always = bool(rebinds_in_trip) and tcfg.must_pass_after(tcfg.entry, [tcfg.node_of(n) for n in rebinds_in_trip])
-    own = (not class_level) or bool(rebinds_in_init) or (init_calls_trip and trip_rebinds_always)
-    res.check(own, "R-CANARY", trip, "flags-per-instance", "every canary instance gets its own flag dict (rebound in __init__ / trip)",
-              "self._states is a class-level dict that is only ever modified in place: all models share one set of recompile flags, so a second "
-              "model that recompiles an evaluator clears the flag the first (modified) model still needs")
-    # __setattr__: a flag may only be set to a false value
-    sa = None
-    for c in repo.mro(canary):
-        if "__setattr__" in c.methods:
-            sa = c.methods["__setattr__"]
-            break
-    if sa is not None:
-        cfg, df = cfg_of(sa), dataflow_of(sa)
-        name_p, val_p = sa.params[1], sa.params[2]
-        bad = []
-        n_st = 0
-        for n in cfg.stmt_nodes():
-            st = n.ast
-            if n.kind == "stmt" and isinstance(st, ast.Assign) and isinstance(st.targets[0], ast.Subscript) \
-                    and is_self_attr(st.targets[0].value, "_states"):
-                n_st += 1
-                # allowed: value literal False under guard `not value`
-                guards = cfg.guards_of(n)
-                g_ok = any(outcome is True and isinstance(t.ast.test, ast.UnaryOp) and isinstance(t.ast.test.op, ast.Not)
-                           and isinstance(t.ast.test.operand, ast.Name) and t.ast.test.operand.id == val_p
-                           for t, outcome in guards if isinstance(t.ast, ast.If))
-                v_ok = isinstance(st.value, ast.Constant) and st.value.value is False
-                if not (v_ok and g_ok):
-                    bad.append(st)
-        res.check(not bad and n_st >= 1, "R-CANARY", sa, "only-reset-by-assignment",
-                  "flags are stored only as False under `not value`",
-                  "a flag can be stored with a value other than False / outside the `not value` guard: %s" % [norm(b) for b in bad],
-                  node=bad[0] if bad else None)
-    # reset(name) clears exactly `name`
-    rs = None
-    for c in repo.mro(canary):
-        if "reset" in c.methods:
-            rs = c.methods["reset"]
-            break
-    if rs is None:
-        raise AnalysisError("canary class has no reset()")
-    p = rs.params[1]
-    ok = False
-    for n in walk_no_nested(rs.node):
-        if isinstance(n, ast.Call) and dotted(n.func) in ("self.__setattr__", "setattr"):
-            args = n.args[1:] if dotted(n.func) == "setattr" else n.args
-            if len(args) == 2 and isinstance(args[0], ast.Name) and args[0].id == p and const_value(args[1], 1) is False:
-                ok = True
-        if isinstance(n, ast.Assign) and isinstance(n.targets[0], ast.Subscript) and is_self_attr(n.targets[0].value, "_states") \
-                and norm(n.targets[0].slice) == p and const_value(n.value, 1) is False:
-            ok = True
-    res.check(ok, "R-CANARY", rs, "reset-own-flag", "reset(name) stores False under `name`",
-              "reset(name) does not store False under its own argument")
 
 
 # ------------------------------------------------------------------- R-GUARD
